@@ -69,13 +69,20 @@ def locked(path):
 
 def prune(pattern, keep, min_age_s=2 * 3600):
     """removes cached artefacts of other trees: only ones that have not been touched for a while (another check may be using them)"""
-    olds = sorted((p for p in glob.glob(pattern) if not p.endswith(".lock")), key=os.path.getmtime)
+    def mtime(p):
+        try:
+            return os.path.getmtime(p)
+        except OSError:           # removed by a check running side by side
+            return 0.0
+    olds = sorted((p for p in glob.glob(pattern) if not p.endswith(".lock")), key=mtime)
     now = time.time()
     for old in olds[:-keep] if keep else olds:
-        if now - os.path.getmtime(old) > min_age_s:
+        if 0.0 < mtime(old) < now - min_age_s:
             shutil.rmtree(old, ignore_errors=True)
-            if os.path.exists(old + ".lock"):
+            try:
                 os.remove(old + ".lock")
+            except OSError:
+                pass
 
 
 def build_harness(th, race=False):
